@@ -15,7 +15,7 @@ PLAN = dict(
           "side-swap on all n^2 pairs, transitivity of <= on all n^3 triples, and two-bound patterns = "
           "conjunction of their halves for sampled (A,C) x all B. No reference model is involved. "
           "distinct_nontrivial counts distinct ordered pairs of textually different strings whose pair laws "
-          "were evaluated; counters give triples checked and triples with both premises true. Later additions: length clusters (exactly k components, k swept to 70 and around powers of two to 2048, every kind of last token) inside the pools. Round 7: revision-cluster families (one stem, tails with signs, separators, blanks, second revisions) inside the pools."),
+          "were evaluated; counters give triples checked and triples with both premises true. Later additions: length clusters (exactly k components, k swept to 70 and around powers of two to 2048, every kind of last token) inside the pools. Round 7: revision-cluster families (one stem, tails with signs, separators, blanks, second revisions) inside the pools. Round 8: small pools at the edges of the number representation (64-bit maxima and neighbours, values that do not fit, small values behind 19-70 zeros as first component, later component and revision) with every pair of members as the two ends of a range."),
     technique="runtime monitor: algebraic laws (total preorder, operator duality, side swap, conjunction) checked on complete observation matrices of the real matcher",
     level_text=("Exploration: laws between observations of the real code over complete pools, so inputs outside "
                 "any reference model (non-ASCII, >18-digit runs, punctuation) are covered; every pool is checked "
